@@ -288,8 +288,18 @@ pub fn c15(ctx: &Ctx) -> ! {
     FORCE_MERGE.store(true, std::sync::atomic::Ordering::Relaxed);
     crate::e2::regression(ctx, "C15", &known, &mut out);
     FORCE_MERGE.store(false, std::sync::atomic::Ordering::Relaxed);
-    for round in 0..rounds {
-        let base = gen_modules(ctx, &profile_docs(), 16 * 4, 0xC15 + round as u64 * 7919);
+    // cells: default features; without serde-compat (TS-only modules, every attribute in ts
+    // spelling) - the documentation must be carried over there just the same
+    for round_cell in 0..rounds * 2 {
+        let (round, bare) = (round_cell / 2, round_cell % 2 == 1);
+        let mut profile = profile_docs();
+        let cfg = if bare {
+            profile.serde = false;
+            subjects::SlotCfg { features: vec![], default_features: false, ..Default::default() }
+        } else {
+            subjects::SlotCfg::default()
+        };
+        let base = gen_modules(ctx, &profile, if bare { 16 * 2 } else { 16 * 4 }, 0xC15 + round as u64 * 7919 + bare as u64 * 104729);
         let mut all = vec![];
         for b in &base {
             let mut s = map_docs(b, &|_| None);
@@ -313,8 +323,11 @@ pub fn c15(ctx: &Ctx) -> ! {
             all.push(s);
             all.push(c);
         }
-        let corpus = build(ctx, all, &subjects::SlotCfg::default());
+        let corpus = build(ctx, all, &cfg);
         out.bump("modules", corpus.modules.len() as u64);
+        if bare {
+            out.bump("modules_without_serde_compat", corpus.modules.len() as u64);
+        }
         out.bump("discarded_by_rustc", corpus.discarded_by_rustc as u64);
         let results = for_each_module(ctx, &corpus, |p, s, cwd| c15_module(p, s, cwd));
         let mut payloads: BTreeMap<String, Value> = BTreeMap::new();
